@@ -69,6 +69,22 @@ class Stats:
                 setattr(self, k, getattr(self, k) + v)
 
 
+def _timed_check(solver, budget_ms):
+    """solver.check() with a hard wall-clock limit: z3's own `timeout` is not honoured by every tactic (nlsat can run
+    far beyond it), so a timer thread interrupts the context after 1.5x the budget; an interrupted check is `unknown`"""
+    import threading
+
+    timer = threading.Timer(1.5 * budget_ms / 1000.0 + 1.0, solver.ctx.interrupt)
+    timer.daemon = True
+    timer.start()
+    try:
+        return str(solver.check())
+    except z3.Z3Exception:
+        return "unknown"
+    finally:
+        timer.cancel()
+
+
 def _is_zero(t):
     return z3.is_rational_value(t) and t.numerator_as_long() == 0
 
@@ -202,7 +218,7 @@ class PathCtx:
             if extra:
                 self.solver.push()
                 self.solver.add(*extra)
-            r = str(self.solver.check())
+            r = _timed_check(self.solver, self.query_timeout_ms)
             if r == "sat":
                 m = self.solver.model()
             if extra:
@@ -216,7 +232,7 @@ class PathCtx:
                 # query is purely polynomial and nlsat applies
                 fs = [z3.substitute(f, *self.int_subst) for f in fs]
             s2.add(*fs)
-            r = str(s2.check())
+            r = _timed_check(s2, self.query_timeout_ms)
             if r == "sat":
                 m = s2.model()
             self.stats.fresh_queries = getattr(self.stats, "fresh_queries", 0) + 1
@@ -229,7 +245,7 @@ class PathCtx:
                     s3 = z3.Solver()
                     s3.set("timeout", self.query_timeout_ms)
                     s3.add(*abstracted)
-                    if str(s3.check()) == "unsat":
+                    if _timed_check(s3, self.query_timeout_ms) == "unsat":
                         r = "unsat"
                     self.stats.fresh_queries += 1
         self.stats.queries[r] = self.stats.queries.get(r, 0) + 1
@@ -549,15 +565,37 @@ class SymEnv:
         saved_mode = self.p.fresh_mode
         if self.p.fresh_obligations:
             self.p.fresh_mode = True
+        saved_info_to = None
+        if info and self.p.query_timeout_ms > 5000:
+            # informational obligations do not decide anything: small budget
+            saved_info_to = self.p.query_timeout_ms
+            self.p.query_timeout_ms = 5000
+            self.p.solver.set("timeout", 5000)
         try:
             r, m = self.p._check(neg)
-            if r == "unknown":
+            if r == "unknown" and not info:
                 # not(A and B) is satisfiable iff not(A) or not(B) is: decide the conjuncts one by one
                 r, m = self._split_check(claim_t, 2)
                 if r != "unknown":
                     detail = (detail + "," if detail else "") + "split"
+            if r == "unknown" and not info:
+                # last resort (a loaded machine makes borderline queries time out): once more with four times the budget
+                saved_to = self.p.query_timeout_ms
+                _arm_watchdog(getattr(self.p, "path_timeout", 120.0) + 8 * saved_to / 1000.0)  # the retry gets its own wall-time budget
+                self.p.query_timeout_ms = saved_to * 4
+                self.p.solver.set("timeout", saved_to * 4)
+                try:
+                    r, m = self.p._check(neg)
+                finally:
+                    self.p.query_timeout_ms = saved_to
+                    self.p.solver.set("timeout", saved_to)
+                if r != "unknown":
+                    detail = (detail + "," if detail else "") + "retry-4x"
         finally:
             self.p.fresh_mode = saved_mode
+            if saved_info_to is not None:
+                self.p.query_timeout_ms = saved_info_to
+                self.p.solver.set("timeout", saved_info_to)
         dt = time.time() - t0
         ob = Obligation(name, r, dt, info=info, detail=detail, path=[bool(d[0]) for d in self.p.decisions[: self.p.pos]])
         if r == "unsat":
@@ -879,6 +917,7 @@ def explore(scenario, cfg, *, max_paths=2000, tmax=300.0, query_timeout_ms=20000
             break
         dec = stack.pop()
         p = PathCtx(dec, res.stats, query_timeout_ms=query_timeout_ms, max_decisions=max_decisions, max_int_fork=max_int_fork)
+        p.path_timeout = path_timeout
         V._State.ctx = p
         obs: list = []
         env = SymEnv(p, obs, keep_smt=keep_smt if not any(o.smt for o in res.obligations) else 0)
